@@ -9,6 +9,21 @@ CLAIMED = {
    technique="Coq proof (induction over strings/RPC lists) + per-run model/implementation correspondence by vm_compute",
    ref="§5.C03"),
 }
+CLAIMED["C01"] = dict(
+   text="Coq model of the emitted Go client (URL building, escaping, query encoding, body format choice) and Go server (ServeMux matching incl. path cleaning and wildcard rules, path/query binding, strconv conversions, body handling) in coq/theories/GoRt.v with the delivery theorems in props/C01.v (all schemas/values outside the listed defect classes); every run drives the generated client against the generated server (compiled from /repo's working tree) on the runtime catalogue, a byte sweep of path/query values and seeded random values, evaluates the model in Coq on the same cases and compares request line, dispatch, handler-seen and caller-seen values; the oracle (handler saw = sent, caller got = returned) is evaluated on the implementation alone.",
+   note="Trusted: Coq kernel + vm_compute; hand-written model tied by sampled correspondence; bodies are modelled as (format, value) pairs, i.e. WHICH codec each side applies, the codecs themselves are C04/C05; float kinds on the URL are outside the model (direct oracle only); net/http behaviour is modelled for the patterns sebuf emits; protovalidate is stubbed.",
+   technique="Coq proof (string/number round trips, route matching) + client/server correspondence by vm_compute",
+   ref="§5.C01")
+CLAIMED["C02"] = dict(
+   text="Coq model of the emitted Go server facing arbitrary request lines and bodies (coq/theories/GoRtRaw.v on top of GoRt.v: route lookup, path binding, query binding incl. repeated and required parameters, strconv conversions, body reset) with theorems in props/C02.v; every run sends raw HTTP/1.1 requests (valid, out-of-range, malformed, percent-encoded, repeated URL values x absent/empty/{}/partial bodies x JSON/binary) to the generated server, compares dispatch/rejection/handler-seen value with the model evaluated in Coq, and evaluates an independent oracle (the harness's own reading of the URL) on the implementation.",
+   note="Trusted: Coq kernel + vm_compute; hand-written model tied by sampled correspondence; float URL kinds are checked by the oracle only; the TS server and the OpenAPI parameter list are not part of this check (see C03/C08).",
+   technique="Coq proof over the server model + raw-request correspondence by vm_compute",
+   ref="§5.C02")
+CLAIMED["C16"] = dict(
+   text="Coq theorems about the plugins' message-graph walks (coq/theories/Traverse.v): the visited-set guarded walks terminate on every finite graph (C16_visited_terminates, by a decreasing unvisited-count measure), the mock emitter's unguarded walk terminates on acyclic response types and provably never terminates on cyclic ones (refutation for generate_mock=true). Every run executes all five plugins under wall-clock and address-space limits on stress descriptors (recursive, mutually recursive, deep, wide, empty, package-less, no go_package, long names, well-known types, seeded random graphs) x parameters and compares answered/failed with the model's verdict on the real descriptor graph.",
+   note="Partial by nature: the theorems cover traversal logic; crashes, memory and wall-clock of the real processes are observed (10 s / 1-6 GiB limits), not proved. Trusted: Coq kernel, the graph extraction from descriptors, process sandboxing.",
+   technique="Coq proof (termination measure / non-termination by induction on fuel) + sandboxed plugin runs",
+   ref="§5.C16")
 REASONS = {}
 def main():
     checks = []
